@@ -24,7 +24,8 @@ impl<const A: u64, const C: u64> LinearCongruentialGenerator64<A, C> {
 
     pub fn next_raw(&mut self) -> u64 {
         self.state = self.state.wrapping_mul(A).wrapping_add(C);
-        self.state
+        // low bits of an LCG state have tiny periods, so fold the high half into them
+        self.state ^ (self.state >> 32)
     }
 }
 
